@@ -20,6 +20,8 @@ ASSUMPTIONS = [
     "distinct entities of a valid straight mesh have distinct midpoints (geometric fact under validity)",
     "ENT contract (C11) for t2f/t2e/facets/edges of the old and the new mesh",
     "conformity between neighbouring cells and tag propagation on whole meshes are bounded (zoo), not proved",
+    "tetrahedral LAYOUT: np.nonzero is a function of the mask (all selections by one mask share one enumeration); counting lemma n1 + n2 + n3 == nt for "
+    "pointwise exclusive and exhaustive masks (induction on nt, not mechanised; the pointwise part is obligation layout/tet/classes)",
 ]
 TRUSTED = ["NumPy model skv/sarr.py; NumPy object arrays (Mode P)", "independent geometric oracles native/geom.py (stand-in)"]
 UNITS = {}
